@@ -34,14 +34,10 @@ func runC11(c *Ctx) {
 	// "once the annotation is removed it resumes": the only thing that tells the controller so is the update event of
 	// the set, and a paused set has written nothing that would produce another one -- the set informer's handlers
 	// enqueue the set whatever has changed (the registration rule of C16, as a clause of this property)
-	{
-		n0 := len(c.Obs)
-		c.only = map[string]string{"C16.1-registration-target": "C11.4-unpausing-is-noticed"}
-		c.onlyConstruct = func(s string) bool { return !strings.Contains(strings.ToLower(s), "pod") }
-		runC16(c)
-		c.only, c.onlyConstruct = nil, nil
-		c.Floor("C11.4-set-informer-handlers", len(c.Obs)-n0, 3)
-	}
+	c.withOnly(map[string]string{"C16.1-registration-target": "C11.4-unpausing-is-noticed"}, func(s string) bool { return !strings.Contains(strings.ToLower(s), "pod") }, "C11.4-set-informer-handlers", 3, func() { runC16(c) })
+	// "adopts ... nothing" while the set is being deleted: the uncached recheck runs once per sync, and what it found is what
+	// every adoption attempt of that sync is told -- not only the first (the shape rule of C10.3, as a clause of this property)
+	c.withOnly(map[string]string{"C10.3-CanAdopt-shape": "C11.1-recheck-result-is-kept-for-every-attempt"}, nil, "C11.1-recheck-shape", 1, c.freshConfirmation)
 	fn, an := c.Analysis(sy)
 	info := sy.Pkg.TypesInfo
 	// the set read from the lister
